@@ -1,1 +1,25 @@
-P["C01"] = {"assumptions": [A["KANI"], A["FLOAT"]], "trusted_base": ["Verus 0.2026.09.13 / Z3", "Kani 0.68.0 / CBMC 6.11.0"], "not_decided": []}
+TB_K = ["Kani 0.68.0", "CBMC 6.11.0", "cvc5 1.0.3", "CaDiCaL 3.0.0 / Kissat 4.0.1"]
+TB_V = ["Verus 0.2026.09.13 / Z3", "A2 f32 order axioms (cross-checked bit-precisely by Kani)", "A3 Easing::clone == identity"]
+ADUR = "A4': Duration::as_secs_f32 / from_secs_f32 are replaced in the animator harnesses by uninterpreted functions (monotone, 0 <-> ZERO); from_secs_f32(0)==ZERO is proved on std, monotonicity of as_secs_f32 is assumed (the word-level solver did not return in 300 s)"
+ATL = "timelines inside the animator / merged timeline are ARBITRARY values of the abstract contract TL (step function of time, shows substituted start values up to the delay, touches only its own properties); that generated timelines satisfy TL is C01/C08/C09/C10's business"
+P["C01"] = {"assumptions": [A["KANI"], A["FLOAT"], "V-R1: from_keyframes verified for &Vec<Keyframe> (the derive macro's call shape)", "value function pure", "interpolate_value enters route V as an uninterpreted function; its definition is the Kani-proved contract"],
+            "trusted_base": TB_V + TB_K, "not_decided": ["prepare_frame's binary search is verified for <=4 master keyframes (bounded); everything else is unbounded in the number of keyframes"]}
+P["C02"] = {"assumptions": [A["A1"], A["KANI"], A["FLOAT"]], "trusted_base": TB_K + TB_V,
+            "not_decided": ["the chain interpolate_value = lerp(start,end,easing(frac)) ; frac endpoints ; easing(0)=0,easing(1)=1 ; lerp endpoints is four machine-checked contracts composed by substitution in DESIGN.md, not one machine-checked harness (the all-in-one harness did not return in 300 s)",
+                            "float keyframe values: exact (0 ulp) for finite values is what is proved; integer types: exact for values exactly representable in f32"]}
+P["C04"] = {"assumptions": [ADUR, ATL, A["KANI"]], "trusted_base": TB_K, "not_decided": []}
+P["C05"] = {"assumptions": [ADUR, ATL, A["KANI"]], "trusted_base": TB_K, "not_decided": []}
+P["C06"] = {"assumptions": [ADUR, ATL, A["KANI"]], "trusted_base": TB_K,
+            "not_decided": ["'within float rounding' for inexact step splits: no contract bounds the sensitivity of an arbitrary eased timeline to a 1 ns perturbation; advance(a);advance(b)==advance(a+b) is decided only through: time accumulates exactly (Duration add) and values are a function of the accumulated time (advance_contract)"]}
+P["C07"] = {"assumptions": [ADUR, ATL, A["A1"], A["KANI"]], "trusted_base": TB_K,
+            "not_decided": ["agreement of TimeScale::get_duration with the terminal test is proved for delay+span exact (class of f32 absorption excluded, see DESIGN.md section 4 C07)"]}
+P["C08"] = {"assumptions": [A["KANI"], A["A5"], "generated update assigns a field only if value_at returns Some (C17 harnesses)"], "trusted_base": TB_V + TB_K, "not_decided": []}
+P["C10"] = {"assumptions": [A["A1"], A["KANI"], A["FLOAT"]], "trusted_base": TB_V + TB_K, "not_decided": []}
+P["C11"] = {"assumptions": [A["KANI"]], "trusted_base": TB_K, "not_decided": ["bounded: <=3 keyframes (std sort executed with unwinding assertions); positions fully symbolic. Downstream, sorted distinct positions determine everything (C01 contracts take the sorted list)"]}
+P["C12"] = {"assumptions": [ATL, A["KANI"]], "trusted_base": TB_K, "not_decided": ["bounded: 0..3 components"]}
+P["C13"] = {"assumptions": [A["KANI"], A["FLOAT"], "lyon_geom's Bezier polynomial is executed, not assumed"], "trusted_base": TB_K,
+            "not_decided": ["range [0,1] of the non-Back curves for all x (nonlinear in x: no result in 300 s per curve)", "monotonicity and In/Out point-mirror (two-variable nonlinear float relations)"]}
+P["C14"] = {"assumptions": [A["KANI"], A["FLOAT"]], "trusted_base": TB_K,
+            "not_decided": ["betweenness / same-value / nearest for 16..64-bit integer types and f32/f64 over all f32 x (two symbolic float products: no result in 600 s with cadical, kissat or cvc5); 8-bit types are proved for all x in the thorough tier", "monotonicity in x", "glam vector types (component-wise by construction of three macros)"]}
+P["C20"] = {"assumptions": [A["A1"], A["KANI"], A["FLOAT"]], "trusted_base": TB_K + TB_V,
+            "not_decided": ["debug == release: every proof runs with overflow checks on (debug semantics) and shows no overflow, so both profiles compute the same; native replays run in the debug profile only", "Easing::Custom and Back-family overshoot beyond an integer type's range (documented panic)"]}
